@@ -295,6 +295,9 @@ func (c *Ctx) resolveRenames() {
 		for _, n := range names {
 			fp := c.fingerprint(fresh[n])
 			s := 0.5*jaccard(want.Callees, fp.Callees) + 0.5*jaccard(want.Fields, fp.Fields)
+			if len(want.Callees) == 0 && len(fp.Callees) == 0 {
+				s = jaccard(want.Fields, fp.Fields) // "neither calls anything" is no evidence of identity
+			}
 			if fp.Sig != want.Sig {
 				// another signature: only the same function under the same name in another form (a method that
 				// became a plain function or the reverse, parameters added, removed or reordered)
@@ -317,6 +320,45 @@ func (c *Ctx) resolveRenames() {
 			c.byAlias[m] = f
 			delete(fresh, best)
 			c.note("function %s is not declared any more; %s has its signature and %.0f%% of its callees and fields — analysed as the renamed %s", m, best, bs*100, m)
+			if d, ok := c.decls[best]; ok {
+				c.decls[m] = d
+			}
+		}
+	}
+	// second chance, by the struct fields alone: a function whose callees changed with it (a helper it called was
+	// inlined or dropped) but which still touches the same fields under the same signature
+	for _, m := range missing {
+		if c.byAlias[m] != nil {
+			continue
+		}
+		want := rec[m]
+		if len(want.Fields) < 3 {
+			continue
+		}
+		best, bs, ss := "", -1.0, -1.0
+		var names []string
+		for n := range fresh {
+			names = append(names, n)
+		}
+		sort.Strings(names)
+		for _, n := range names {
+			fp := c.fingerprint(fresh[n])
+			if fp.Sig != want.Sig {
+				continue
+			}
+			sc := jaccard(want.Fields, fp.Fields)
+			if sc > bs {
+				ss, best, bs = bs, n, sc
+			} else if sc > ss {
+				ss = sc
+			}
+		}
+		if best != "" && bs >= 0.6 && bs-ss >= 0.2 {
+			f := fresh[best]
+			c.alias[f] = m
+			c.byAlias[m] = f
+			delete(fresh, best)
+			c.note("function %s is not declared any more; %s has its signature and %.0f%% of its fields (its callees changed) — analysed as the renamed %s", m, best, bs*100, m)
 			if d, ok := c.decls[best]; ok {
 				c.decls[m] = d
 			}
